@@ -276,9 +276,10 @@ func compare19(c *core.Ctx, m mode19, mk func() op19, mkSplit splitOp, what stri
 	markt := h19.Rec.Mark()
 	var tosqlVars []interface{}
 	var tosqlSQL string
+	var tosqlErr error
 	explained := m.derive(base).ToSQL(func(tx *gorm.DB) *gorm.DB {
 		o, _ := mk()(tx)
-		tosqlSQL, tosqlVars = o.sql, o.vars
+		tosqlSQL, tosqlVars, tosqlErr = o.sql, o.vars, o.err
 		return o.res
 	})
 	// (c') ToSQL called on a handle that already carries part of the chain
@@ -367,6 +368,29 @@ func compare19(c *core.Ctx, m mode19, mk func() op19, mkSplit splitOp, what stri
 	} else if want := h19.DB.Dialector.Explain(dry.sql, dry.vars...); dry.err == nil && !dry.noMain && explained != want && len(tosqlVars) == len(dry.vars) {
 		add("ToSQL string %q is not Explain(SQL, Vars) = %q", explained, want)
 	}
+	// an operation gorm refuses before its statement: the real run sent nothing and ended in an error of gorm's own.
+	// What the real run sends is then "nothing, because of that error": every dry run of the same chain has to end in
+	// the same error, not hand out a statement as if it were sent.
+	refusal := 0
+	if len(realEvents) == 0 && realOut.err != nil {
+		c.Inc("real_refused_before_its_statement")
+		for _, dr := range []struct {
+			how string
+			err error
+			sql string
+		}{{"Session{DryRun}", dry.err, dry.sql}, {"Config.DryRun", dryc.err, dryc.sql}, {"ToSQL", tosqlErr, tosqlSQL}} {
+			if dr.err == nil {
+				add("the real run sent no statement and failed with %q; %s reports no error and exposes %q", realOut.err, dr.how, dr.sql)
+				refusal++
+			} else if dr.err.Error() != realOut.err.Error() {
+				add("the real run sent no statement and failed with %q; %s fails with %q", realOut.err, dr.how, dr.err)
+				refusal++
+			}
+		}
+		if refusal == 0 {
+			c.Inc("refusal_reported_alike_by_all_dry_runs")
+		}
+	}
 	if dry.noMain {
 		c.Inc("ops_without_an_exposed_statement")
 	} else if len(realEvents) == 0 {
@@ -417,6 +441,10 @@ func compare19(c *core.Ctx, m mode19, mk func() op19, mkSplit splitOp, what stri
 		}
 	}
 	if len(problems) > 0 {
+		if refusal > 0 && refusal == len(problems) {
+			// a class of its own: the dry run does not report the refusal of the real run
+			what = "refusal-not-reported/" + what
+		}
 		c.Violation(what, map[string]interface{}{"chain": desc, "problems": problems, "dry_sql": dry.sql, "dry_vars": renderVars19(dry.vars)})
 		return
 	}
@@ -733,6 +761,14 @@ func run19(c *core.Ctx) {
 		if m.ctx != nil || inOp != nil {
 			c.Inc("ops_under_a_context_with_a_tenant")
 		}
+	}
+	// operations gorm refuses before their statement (a write without a condition while AllowGlobalUpdate is off,
+	// nothing to create, no model), next to their neighbours that are sent
+	{
+		seed := c.R.U64()
+		model, fin, cnd := core.Pick(c.R, refuseModels19), core.Pick(c.R, refuseFins19), core.Pick(c.R, refuseConds19)
+		global := c.R.Chance(1, 4)
+		compare19(c, drawMode(c.R, 2), func() op19 { return refuseOp19(model, fin, cnd, global, seed) }, nil, "refuse/"+fin)
 	}
 	// operations that reach their executor with the statement text already there
 	if c.R.Chance(2, 3) {
